@@ -22,6 +22,24 @@ import (
 
 const alias = "verifsim"
 
+// costed maps standard-library functions whose running time is linear in an argument to their
+// cost-charging wrappers in verif/simrt (same signature, same result).
+var costed = map[string]string{
+	"strings.Index": "StringsIndex", "strings.Contains": "StringsContains", "strings.LastIndex": "StringsLastIndex", "strings.Count": "StringsCount",
+	"strings.IndexByte": "StringsIndexByte", "strings.IndexRune": "StringsIndexRune", "strings.IndexAny": "StringsIndexAny",
+	"strings.Replace": "StringsReplace", "strings.ReplaceAll": "StringsReplaceAll", "strings.Split": "StringsSplit", "strings.ToUpper": "StringsToUpper",
+	"strings.ToLower": "StringsToLower", "strings.TrimSpace": "StringsTrimSpace", "strings.Repeat": "StringsRepeat", "strings.Join": "StringsJoin", "strings.Fields": "StringsFields",
+	"bytes.Index": "BytesIndex", "bytes.Contains": "BytesContains", "bytes.Count": "BytesCount", "bytes.IndexByte": "BytesIndexByte", "bytes.Replace": "BytesReplace", "bytes.TrimSpace": "BytesTrimSpace",
+}
+
+// regexpScans lists the regexp methods whose first argument is scanned.
+var regexpScans = map[string]bool{
+	"Match": true, "MatchString": true, "Find": true, "FindString": true, "FindIndex": true, "FindStringIndex": true, "FindSubmatch": true, "FindStringSubmatch": true,
+	"FindSubmatchIndex": true, "FindStringSubmatchIndex": true, "FindAll": true, "FindAllString": true, "FindAllIndex": true, "FindAllStringIndex": true,
+	"FindAllSubmatch": true, "FindAllStringSubmatch": true, "FindAllSubmatchIndex": true, "FindAllStringSubmatchIndex": true,
+	"ReplaceAll": true, "ReplaceAllString": true, "ReplaceAllLiteral": true, "ReplaceAllLiteralString": true, "ReplaceAllFunc": true, "ReplaceAllStringFunc": true, "Split": true,
+}
+
 // Site describes one instrumentation point.
 type Site struct {
 	ID   int    `json:"id"`
@@ -56,6 +74,7 @@ type fileCtx struct {
 	file  *ast.File
 	edits []edit
 	tf    *token.File
+	keep  map[string]bool
 }
 
 type rewriter struct {
@@ -254,6 +273,18 @@ func (rw *rewriter) file(opts Options) error {
 	}
 	if err != nil {
 		return err
+	}
+	if len(rw.f.keep) > 0 {
+		var ks []string
+		for k := range rw.f.keep {
+			ks = append(ks, k)
+		}
+		sort.Strings(ks)
+		txt := "\n"
+		for _, k := range ks {
+			txt += "var _ = " + k + "\n"
+		}
+		rw.insert(rw.file0().End(), txt, 0)
 	}
 	if len(rw.f.edits) > before {
 		// import on the package clause line keeps line numbers intact
@@ -491,6 +522,43 @@ func (rw *rewriter) walk(n ast.Node, depth int, opts Options) error {
 					rw.insert(x.Rparen, fmt.Sprintf(", %d", sid), -depth)
 					visit(x.Args[0], depth+1)
 					return
+				}
+			}
+			if se, ok := x.Fun.(*ast.SelectorExpr); ok {
+				if pk, ok := se.X.(*ast.Ident); ok {
+					if pn, ok := rw.info.Uses[pk].(*types.PkgName); ok {
+						if repl := costed[pn.Imported().Path()+"."+se.Sel.Name]; repl != "" {
+							rw.site(x.Pos(), "stdcost")
+							rw.replace(se.Pos(), se.End(), alias+"."+repl)
+							if rw.f.keep == nil {
+								rw.f.keep = map[string]bool{}
+							}
+							rw.f.keep[pk.Name+"."+se.Sel.Name] = true // keeps the import used
+						}
+					}
+				}
+				if sel := rw.info.Selections[se]; sel != nil && sel.Kind() == types.MethodVal && len(x.Args) >= 1 {
+					if fn, ok := sel.Obj().(*types.Func); ok && fn.Pkg() != nil && fn.Pkg().Path() == "regexp" && regexpScans[fn.Name()] {
+						arg := x.Args[0]
+						if t := rw.info.TypeOf(arg); t != nil {
+							wrap := ""
+							switch u := t.Underlying().(type) {
+							case *types.Basic:
+								if u.Kind() == types.String || u.Kind() == types.UntypedString {
+									wrap = "S"
+								}
+							case *types.Slice:
+								if b, ok := u.Elem().Underlying().(*types.Basic); ok && b.Kind() == types.Byte {
+									wrap = "B"
+								}
+							}
+							if wrap != "" {
+								rw.site(x.Pos(), "stdcost")
+								rw.insert(arg.Pos(), alias+"."+wrap+"(", depth+1)
+								rw.insert(arg.End(), ")", -(depth + 1))
+							}
+						}
+					}
 				}
 			}
 			if typ, method, se, selection := rw.syncMethod(x); typ != "" {
